@@ -401,6 +401,8 @@ func init() {
 		ruleFormatData(c, "FORMAT-DATA", p.ModulePkgs())
 		ruleNilBreak(c, "NIL-ELEMENT-BREAK", p.ModulePkgs())
 		ruleWalkCut(c, "WALK-CUT", p.ModulePkgs(), 0)
+		ruleCtorParam(c, "CTOR-KEEPS-PARAM", p.ModulePkgs())
+		ruleComparatorBoth(c, "COMPARATOR-BOTH", p.ModulePkgs())
 		ruleErrPathUnseen(c, "ERR-PATH-UNSEEN", p.ModulePkgs())
 		ruleMarkBeforeStateTest(c, "MARK-BEFORE-STATE-TEST", p.ModulePkgs())
 		for _, o := range c.Obls {
